@@ -621,7 +621,16 @@ func (y *Y) Ambiguous() string {
 		if e.mixedKeyMap() {
 			return "fmt-mixed-keys"
 		}
-		multi := func(m *Y) bool { return m.K == KMap && len(m.M) >= 2 && hasSubst(m) }
+		badKey := func(m *Y) bool {
+			for _, e := range m.M {
+				if e.K.K == KStr && (e.K.S == "" || strings.ContainsAny(e.K.S, "=\x00")) {
+					return true
+				}
+			}
+			return false
+		}
+		// (under evaluation the entries are exported one by one in map order, up to the first failure)
+		multi := func(m *Y) bool { return m.K == KMap && len(m.M) >= 2 && (hasSubst(m) || badKey(m)) }
 		if multi(e) {
 			return "env-map-order"
 		}
